@@ -136,7 +136,13 @@ func (g *GettyRemoting) GetMergedMessage(msgID int32) *message.MergedWarpMessage
 }
 
 func (g *GettyRemoting) NotifyRpcMessageResponse(rpcMessage message.RpcMessage) {
-	messageFuture := g.GetMessageFuture(rpcMessage.ID)
+	// the reply takes the pending request out of the table: a second copy of it (a retransmission), processed at
+	// the same time by another worker of the task pool, finds nothing and cannot write into a response the
+	// caller is reading
+	var messageFuture *message.MessageFuture
+	if pending, ok := g.futures.LoadAndDelete(rpcMessage.ID); ok {
+		messageFuture, _ = pending.(*message.MessageFuture)
+	}
 	if messageFuture != nil {
 		messageFuture.Response = rpcMessage.Body
 		// todo add messageFuture.Err
